@@ -2629,8 +2629,10 @@ class FileSet:
         # with the same name. Hence, we need to cover duplicated placeholders
         # so that only the first of them does group capturing.
         path_placeholders = re.findall(r"{(\w+)}", path)
+        # (They are wrapped into a non-capturing group: the regex may be an
+        # alternation such as "A|B" that must not leak into the rest.)
         duplicated_placeholders = {
-            p: self._remove_group_capturing(p, placeholder[p])
+            p: "(?:" + self._remove_group_capturing(p, placeholder[p]) + ")"
             for p in path_placeholders if path_placeholders.count(p) > 1
         }
 
